@@ -742,6 +742,11 @@ def main(tier='quick', seed=0, repo=None):
         s3_seeds = []
         if not found.full():
             rng = random.Random('C20/S3/%d' % seed)
+            if tier == 'quick' and phases[0][1] > 15.0:
+                # a slow machine (start-up took more than twice the usual 7 s: few cores, cold caches): S3 is fixed work of
+                # ~300 cpu-seconds, which would double the run's wall-clock there; half the interpreters (the sixteen hash seeds
+                # of the simulation zygotes are compared with the hash-seed-0 reference in every run anyway)
+                n_s3, n_s3g = n_s3 // 2, n_s3g // 2
             s3_seeds = [1, 2, 3] + [rng.randrange(1, 1 << 32) for _ in range(n_s3 - 3)]
             s3_all = [op for op in oplist if op['k'] != 'flow']
             if s3_slice:
